@@ -523,4 +523,44 @@ def WEv.reply : WEv → Option Nat
   | .quick id | .slow id => some id
   | .idle => none
 
+/-! ## 8. ingress: where the request deadline is anchored -/
+
+/-- the server's entries -/
+inductive Ingress
+  | raw            -- Server.ServeRaw (ring / overflow / TCP frame)
+  | inlineReplay   -- ServeRawInline on the reader, then ServeRawReplay on a worker
+  | replay         -- ServeRawReplay alone
+  | msg            -- Server.ServeMsg (DoH / DoQ / embedders): no arrival time
+deriving DecidableEq, Repr
+
+/-- the deadline the request runs under. `strictEligible`: the wire parser
+carries the packet (carrier.reset(readTime+timeout)); otherwise the decoded
+fallback (serveMsgBy(readTime+timeout)). `pickup` is when the entry runs. -/
+def ingressDeadline (i : Ingress) (_strictEligible : Bool) (readTime pickup qto : Nat) : Nat :=
+  match i with
+  | .msg => pickup + qto
+  | _ => readTime + qto
+
+/-- the entry serves the request only while its budget has not run out -/
+def ingressServes (i : Ingress) (strictEligible : Bool) (readTime pickup qto : Nat) : Bool :=
+  pickup < ingressDeadline i strictEligible readTime pickup qto
+
+/-! ## 9. the batched sender: partial sendmmsg and its fallback -/
+
+/-- `udpEngine.sendGroup` on a burst whose job `i` has a destination the
+kernel refuses iff `refused[i]`: sendmmsg delivers the jobs in front of the
+first refused one and reports how many (`done`); the retry from the unsent
+index is refused whole, and the fallback sends `jobs[done:]` one by one (a
+direct send to a refused destination fails as well). The result is how many
+datagrams each job's client receives. -/
+def sendGroup (refused : List Bool) : List Nat :=
+  let batched := refused.takeWhile (fun r => !r)
+  batched.map (fun _ => 1) ++ (refused.drop batched.length).map (fun r => if r then 0 else 1)
+
+/-! ## 10. tcpStream.beforeWrite -/
+
+/-- the deadline a write is armed with: always a fresh `now + tcpWriteWait`,
+whatever bound the connection carried before (`prev`, possibly already past) -/
+def beforeWrite (_prev : Option Nat) (now writeWait : Nat) : Nat := now + writeWait
+
 end SdnsVerif.Model.OneReply
